@@ -423,14 +423,16 @@ pub fn path_replay(a: &Args) {
         "pairs_with_repeated_labels_observed": nonsimple, "of_which_unori_eq_differs_from_cyclic_equality": nonsimple_disagree, "example": nonsimple_example}));
 }
 
-fn random_braid_link(rng: &mut StdRng) -> (Link, Value) {
+/// closure of a random braid word in which every strand is touched (so the closure has no free loop and must exist);
+/// Err(description) when the library panics on it - the callers record that as an event the specification cannot explain
+fn random_braid_link(rng: &mut StdRng) -> Result<(Link, Value), Value> {
     let n = rng.gen_range(2..5usize); let len = rng.gen_range(n - 1..n + 5);
     let mut w: Vec<i32> = (1..n as i32).collect();        // every strand is touched: no free loop
     while w.len() < len { w.push(rng.gen_range(1..n as i32)); }
     w.shuffle(rng);
     let w: Vec<i32> = w.into_iter().map(|g| if rng.gen_bool(0.5) { g } else { -g }).collect();
-    let l = Braid::new(n, w.iter().map(|g| Generator::from(*g)).collect()).closure();
-    (l, json!({"strands": n, "word": w}))
+    let desc = json!({"strands": n, "word": w});
+    match guarded(|| Braid::new(n, w.iter().map(|g| Generator::from(*g)).collect()).closure()) { Ok(l) => Ok((l, desc)), Err(m) => Err(json!({"strands": n, "word": w, "panic": m})) }
 }
 
 /// impl -> spec: histories on the two registers (long arcs grown by connect until they close up, reduce, rotated / reflected
@@ -491,7 +493,7 @@ pub fn path_record(a: &Args) {
             }
         }
         // adjacency on a real diagram: circles of a random resolution, Seifert circles, components
-        let (l, desc) = random_braid_link(&mut rng);
+        let (l, desc) = match random_braid_link(&mut rng) { Ok(x) => x, Err(d) => { panics += 1; t.emit(&json!({"op":"braid_closure","res":"panic","link":d})); continue; } };
         let cross: Vec<Vec<usize>> = l.data().iter().map(|x| x.edges().to_vec()).collect();
         let fams: Vec<(&str, Vec<Path>)> = vec![
             ("state", { let s = State::from_iter((0..l.data().len()).map(|_| if rng.gen_bool(0.5) { Bit::Bit1 } else { Bit::Bit0 })); l.resolved_by(&s).components() }),
@@ -697,7 +699,7 @@ pub fn tng_record(a: &Args) {
         tr.emit(&json!({"op":"reset","res":"ok"}));
         let mut t = Tng::empty();
         if h % 2 == 0 {
-            let (l, desc) = random_braid_link(&mut rng);
+            let (l, desc) = match random_braid_link(&mut rng) { Ok(x) => x, Err(d) => { tr.emit(&json!({"op":"braid_closure","res":"panic","link":d})); continue; } };
             let s = State::from_iter((0..l.data().len()).map(|_| if rng.gen_bool(0.5) { Bit::Bit1 } else { Bit::Bit0 }));
             let r = l.resolved_by(&s);
             let mut xs: Vec<&Crossing> = r.data().iter().collect(); xs.shuffle(&mut rng);
